@@ -48,6 +48,7 @@ type tuple struct {
 	zeroAt string // which component holds the all-zero pseudo-element
 	lenYs  int    // -1 = len(Cs)
 	lenZs  int
+	share  bool // hand bit-identical commitments (and equal claimed values) to go-ipa through ONE shared pointer
 }
 
 func (t tuple) clone() tuple {
@@ -66,7 +67,7 @@ var multiTxKinds = []string{
 	"swap_LR", "swap_LL", "swap_RR", "swap_open", "drop_open", "dup_open", "append_open", "label_change", "label_empty",
 	"rerep_C", "rerep_D", "rerep_L", "rerep_R", "rerep_all",
 	"len_ys_short", "len_ys_long", "len_zs_short", "len_zs_long", "zero_open", "len_L", "len_R", "len_LR",
-	"arbitrary", "zero_elem", "neg_C", "D_identity", "L_identity", "C_identity",
+	"arbitrary", "zero_elem", "neg_C", "D_identity", "L_identity", "C_identity", "y_pair", "C_pair",
 }
 
 var ipaTxKinds = []string{
@@ -138,6 +139,26 @@ func applyMulti(h tuple, second tuple, tx transform) (tuple, bool) {
 		t.zs[i] = (t.zs[i] + 1 + int(tx.Seed%255)) & 255
 	case "y_offset":
 		t.ys[i] = ref.FrAdd(t.ys[i], nonzeroDelta(tx.Seed))
+	case "y_pair", "C_pair": // compensating changes at two openings of the same index (cancel only if their weights coincide)
+		k := -1
+		for d := 1; d < n; d++ {
+			if t.zs[(i+d)%n] == t.zs[i] {
+				k = (i + d) % n
+				break
+			}
+		}
+		if k < 0 {
+			return t, false
+		}
+		if tx.Kind == "y_pair" {
+			d := nonzeroDelta(tx.Seed)
+			t.ys[i] = ref.FrAdd(t.ys[i], d)
+			t.ys[k] = ref.FrSub(t.ys[k], d)
+		} else {
+			d := smallPoint(tx.Seed)
+			t.Cs[i] = hx.G.Add(t.Cs[i], d)
+			t.Cs[k] = hx.G.Add(t.Cs[k], hx.G.Neg(d))
+		}
 	case "y_zero":
 		if t.ys[i].Sign() == 0 {
 			return t, false
@@ -346,14 +367,26 @@ func multiVerdicts(t tuple) (refOK bool, refErr error, implOK bool, implErr erro
 	cfg := Cfg()
 	proof := &multiproof.MultiProof{D: hx.ToImpl(t.D), IPA: ipa.IPAProof{L: hx.ToImplSlice(t.L), R: hx.ToImplSlice(t.R), A_scalar: hx.FrFromBig(t.A)}}
 	Cs := make([]*banderwagon.Element, len(t.Cs))
+	sharedC := map[hx.RPt]*banderwagon.Element{}
 	for k := range t.Cs {
+		if prev, ok := sharedC[t.Cs[k]]; ok && t.share {
+			Cs[k] = prev
+			continue
+		}
 		e := hx.ToImpl(t.Cs[k])
 		Cs[k] = &e
+		sharedC[t.Cs[k]] = &e
 	}
 	ysI := make([]*fr.Element, len(ys))
+	sharedY := map[string]*fr.Element{}
 	for k := range ys {
+		if prev, ok := sharedY[ys[k].Text(16)]; ok && t.share {
+			ysI[k] = prev
+			continue
+		}
 		e := hx.FrFromBig(ys[k])
 		ysI[k] = &e
+		sharedY[ys[k].Text(16)] = &e
 	}
 	zsI := make([]uint8, len(zs))
 	for k := range zs {
@@ -398,7 +431,7 @@ func evalC02(c c02Case, rec *hx.Rec) error {
 	runNoise(c.Set.Noise, 3, true)
 	// honest proof from the reference prover
 	rproof := ref.MultiProve(hx.G, ref.NewTranscript(c.Set.Label), b.CsRef, b.fsBig, b.zsInt)
-	h := tuple{label: c.Set.Label, Cs: b.CsRef, zs: b.zsInt, ys: b.ysBig, D: rproof.D, L: rproof.IPA.L, R: rproof.IPA.R, A: rproof.IPA.A, class: "honest", lenYs: -1, lenZs: -1}
+	h := tuple{label: c.Set.Label, Cs: b.CsRef, zs: b.zsInt, ys: b.ysBig, D: rproof.D, L: rproof.IPA.L, R: rproof.IPA.R, A: rproof.IPA.A, class: "honest", lenYs: -1, lenZs: -1, share: c.Set.ShareY}
 	// a second honest proof (same polynomials, indices shifted) for splices
 	zs2 := make([]int, len(b.zsInt))
 	for i, z := range b.zsInt {
@@ -594,5 +627,14 @@ func TestC02(t *testing.T) {
 	s := hx.Start(t, "C02")
 	defer s.Finish()
 	s.Guard(func() { Cfg() })
+	// statements far larger than the drawn ones (block sizes of the r^i weights, MSM window thresholds of E): one per shard
+	bigSets := []int{1025, 2049, 1024, 1030, 4097, 770}
+	for i, n := range bigSets {
+		if hx.Sharded(i) && (i < 4 || hx.Thorough()) {
+			set := manySet(n, 3, 100, []string{"dense", "ramp"}[i%2])
+			set.ShareY = i%2 == 0
+			c02Part.EvalCase(s, c02Case{Set: set, Point: "5", Tx: []transform{{Kind: "swap_open", I: n - 1}, {Kind: "y_offset", I: n - 1, Seed: 7}, {Kind: "y_pair", I: n - 2, Seed: 9}, {Kind: "y_pair", I: n - 257, Seed: 11}}})
+		}
+	}
 	c02Part.Run(s, hx.PerShard(hx.Pick(240, 4800)))
 }
